@@ -448,4 +448,5 @@ MUTANTS = [
     dict(file=_F, func="RecordTensor.reset", old="            self.__pointer = 0\n", new="            pass\n"),
     dict(file=_F, func="RecordTensor.incr", old="_unwind_ptr(self.__pointer, -pos, self.__recordsz)", new="_unwind_ptr(self.__pointer, pos, self.__recordsz)"),
     dict(file=_F, func="RecordTensor.pop", old="self.decr(1)\n            return self.read(0)", new="self.decr(1)\n            return self.read(1)"),
+    dict(file=INF, func="RecordTensor.push", old="        if self._ignore(self.__data):\n            self.initialize(", new="        if not self.shape:\n            self.initialize(", contracts=["RecordTensor.__init__[initial observation]"], name="seed C01h: a record of scalar observations is re-initialised by every push"),
 ]
